@@ -136,14 +136,84 @@ pub fn capture_begin() {
     }
 }
 
+/// Everything in the file behind a descriptor that was opened for reading and writing (read by
+/// position through the descriptor itself, so it also works after the process gave up the
+/// privileges it would need to open the path).
+fn read_whole_fd(fd: i32) -> Vec<u8> {
+    let mut data = Vec::new();
+    let mut buf = [0u8; 65536];
+    loop {
+        let n = unsafe { libc::pread(fd, buf.as_mut_ptr() as *mut c_void, buf.len(), data.len() as libc::off_t) };
+        if n <= 0 {
+            break;
+        }
+        data.extend_from_slice(&buf[..n as usize]);
+    }
+    data
+}
+
 /// Returns what was written to stdout and stderr since `capture_begin`.
 pub fn capture_end() -> (String, String) {
     use std::io::Write;
     let _ = std::io::stdout().flush();
     let _ = std::io::stderr().flush();
-    let out = std::fs::read("/stdout.cap").unwrap_or_default();
-    let err = std::fs::read("/stderr.cap").unwrap_or_default();
+    let out = read_whole_fd(1);
+    let err = read_whole_fd(2);
     (String::from_utf8_lossy(&out).to_string(), String::from_utf8_lossy(&err).to_string())
+}
+
+/// The user a simulated process runs as when the variant asks for an unprivileged process (the
+/// worker itself is root, for which permission bits mean nothing).
+pub const UNPRIVILEGED_ID: u32 = 65534;
+
+/// Gives up root in the calling (forked) process for good. False if that was not possible.
+pub fn drop_privileges() -> bool {
+    unsafe {
+        libc::setgroups(0, std::ptr::null()) == 0
+            && libc::setgid(UNPRIVILEGED_ID) == 0
+            && libc::setuid(UNPRIVILEGED_ID) == 0
+            && libc::geteuid() == UNPRIVILEGED_ID
+    }
+}
+
+/// Hands a directory tree to the unprivileged user (symlinks themselves, never their targets).
+pub fn chown_tree(path: &Path) {
+    use std::os::unix::ffi::OsStrExt;
+    if let Ok(c) = std::ffi::CString::new(path.as_os_str().as_bytes()) {
+        unsafe {
+            libc::lchown(c.as_ptr(), UNPRIVILEGED_ID, UNPRIVILEGED_ID);
+        }
+    }
+    if path.is_dir() && !path.is_symlink() {
+        if let Ok(rd) = std::fs::read_dir(path) {
+            for e in rd.flatten() {
+                chown_tree(&e.path());
+            }
+        }
+    }
+}
+
+/// Harness self-check: an unprivileged forked child must really be refused a file of mode 000.
+pub fn check_privilege_seam(scratch: &Path) -> Result<(), String> {
+    use std::os::unix::fs::PermissionsExt;
+    let f = scratch.join("privilege-probe");
+    std::fs::write(&f, b"x").map_err(|e| format!("privilege probe: {e}"))?;
+    std::fs::set_permissions(&f, std::fs::Permissions::from_mode(0o000)).map_err(|e| format!("privilege probe: {e}"))?;
+    chown_tree(&f);
+    let f2 = f.clone();
+    let r: Result<(bool, String), String> = run_forked(move || {
+        let dropped = drop_privileges();
+        let kind = match std::fs::read(&f2) {
+            Ok(_) => "readable".to_string(),
+            Err(e) => format!("{:?}", e.kind()),
+        };
+        (dropped, kind)
+    });
+    let _ = std::fs::remove_file(&f);
+    match r {
+        Ok((true, kind)) if kind == "PermissionDenied" => Ok(()),
+        other => Err(format!("an unprivileged simulated process is not refused a file of mode 000: {other:?}")),
+    }
 }
 
 pub fn strip_ansi(s: &str) -> String {
